@@ -103,9 +103,17 @@ def apply_exclusions(program, excl, acc):
     # known finding K3: a thread that reads must not share its object tree with another thread
     p = copy.deepcopy(program)
     if p.get("buffered") and CLASSES[p["class"]].buffered == "memory":
-        # shared-memory buffering makes all objects on a file share ONE tree while buffered
-        del p["buffered"]
-        acc.excluded += 1
+        # shared-memory buffering makes all objects on a file share ONE container while buffered:
+        # reads that ITERATE over it (() / iter / == / list membership) can be torn by a writer (K3).
+        # Single-step reads are kept, so races in the buffer bookkeeping itself stay observable.
+        kind = p["kinds"][0]
+        for t, r in zip(p["threads"], p["roles"]):
+            if r != "r":
+                continue
+            for op in t:
+                if op["m"] in ("call", "iter", "eq") or (op["m"] == "contains" and kind == "list"):
+                    op["m"], op["a"] = "len", []
+                    acc.excluded += 1
     users = {}
     for ti, (t, r) in enumerate(zip(p["threads"], p["roles"])):
         for op in t:
